@@ -346,7 +346,15 @@ pub fn eval_history(base: &Base, hist: &[Op], cfg: EvalCfg, enabled: &dyn Fn(&Mo
         }
     };
     for op in hist.iter() {
+        // an encoding in the middle of a history that has a dangling reference is expected to fail
+        // loudly (C09): the history ends there, nothing is judged
+        let dangling_now = matches!(op, Op::EncodeNow | Op::PullNow) && !model.expected().1.is_empty();
         let r = catch(|| apply(op, &mut module, &mut model));
+        if r.is_err() && dangling_now {
+            ev.op_panicked = true;
+            ev.key = hash_of(&(format!("{:?}", hist), 2u8));
+            return ev;
+        }
         if let Err(p) = r {
             if p.msg.starts_with("harness:") {
                 panic!("{}", p.msg);
